@@ -62,6 +62,24 @@ def run_shared(chk, tier, own):
                     tid += 1
                     events.append(indx.read_event(IndxIO, tid, c, data, str(wd)))
                     meta[tid] = {"kind": "read", "x": c["x"], "iws": c["iws"], "rws": c["rws"], "bytes": data}
+            # files whose 1/2-byte row-id words cannot count the *total* number of row ids (Gen_IndxLong)
+            lres = core.run_tlc("Gen_IndxLong.tla", "Gen_IndxLong.cfg" if tier == "quick" else "Gen_IndxLong_big.cfg",
+                                workers=1, timeout=1200, xss="512m")
+            chk.add_tlc("L2 generator Gen_IndxLong", lres)
+            if lres.rc != 0:
+                chk.violation("L1:Gen_IndxLong:" + ",".join(lres.violated), lres.out[-800:], {"leg": "L2"})
+            seen = set()
+            for c in lres.json_cases("CASE"):
+                key = (json.dumps(c["x"])[:200], c["iws"], c["rws"], len(c["bytes"]))
+                if key in seen:
+                    continue
+                seen.add(key)
+                tid += 1
+                events.append(indx.read_event(IndxIO, tid, c, c["bytes"], str(wd)))
+                meta[tid] = {"kind": "read", "long": True, "rows_per_entry": [len(e["r"]) for e in c["x"]["ents"]],
+                             "iws": c["iws"], "rws": c["rws"], "bytes": c["bytes"] if len(c["bytes"]) < 2000 else "(%d bytes)" % len(c["bytes"])}
+            if len(seen) < 4:
+                raise core.MachineryFailure("Gen_IndxLong produced %d cases" % len(seen))
             chk.extra["spec_generated_files_loaded"] = tid
             for cl, common, counts in indx.gen_size_cases(tier):
                 tid += 1
@@ -76,7 +94,7 @@ def consume(chk, events, meta, own):
     B = 1500
     cuts = 0
     for k in range(0, len(events), B):
-        res, verdicts = core.validate_batch("Trace_Indx.tla", "Trace_Indx.cfg", events[k:k + B], timeout=3000)
+        res, verdicts = core.validate_batch("Trace_Indx.tla", "Trace_Indx.cfg", events[k:k + B], timeout=3000, xss="512m")
         chk.add_tlc("L3 trace validation", res)
         for ev in events[k:k + B]:
             m = meta[ev["tid"]]
